@@ -29,19 +29,19 @@ ASSUMPTIONS = ["inputs nested at most 100 levels", "patches and documents are su
 
 FRAGS = ["$", "@", "#", "_", "^", "~", "|", "&", ".", "..", "*", "?", "[", "]", "(", ")", ",", ":", "!", "==", "!=", "<", "<=", ">", ">=", "<>", "=~", "&&", "||", "and", "or", "not",
          "in", "contains", "true", "false", "null", "nil", "none", "undefined", "missing", "True", "None", "a", "ab", "_x", "é", "😀", "0", "1", "-1", "01", "-0", "1e2", "1E+2", "1e-2",
-         "1e400", "1.5", "1.", "-", "+", "9" * 30, "'a'", '"a"', "'", '"', "'a\\'", "'\\u12'", "'\\ud800'", "/a/", "/a/i", "/[/", "/", "length(", "count(", "nosuch(", "match(", " ", "\n",
+         "1e400", "1.5", "1.", "-", "+", "9" * 30, "'a'", '"a"', "'", '"', "'a\\'", "'\\u12'", "'\\ud800'", "/a/", "/a/i", "/[/", "/", "/a{99999999999}/", "/(?u)x/a", "/(?i)a(?a)/", "/a{2,1}/", "/(?P<n>a)(?P<n>b)/", "/\\1/", "/(?<=a+)b/", "/a**/", "length(", "count(", "nosuch(", "match(", " ", "\n",
          "\\", "=", "%", "{", "}", "１", "\x00", "a-b", "[?", ".*", "[*]", "1:2", "::", ":-1", "$$", "@@"]
 DOCS = [None, True, 0, 1.5, "abc", [], {}, [1, "a", None, [2], {"a": 1}], {"a": [1, 2], "b": {"c": "x"}, "s": "ab", "k": 1}, [[[[1]]]], {"": {"": 1}}, [0, False, "", None]]
 VALID_PTRS = ["", "/", "/a", "/a/0", "/a~1b", "/~0", "/0/1", "/a/-", "/-1", "/#a", "/~a", "/é", "/a\\u00e9", " /a"]
 VALID_RELS = ["0", "1", "0#", "1#", "0/a", "1/0", "0+1", "0-1", "2+10/x", "0+1#", "10"]
-PATCH_VALS = [None, True, 0, 1.5, "s", "", [], {}, [1], {"op": "add"}, {"op": "add", "path": "/a", "value": 1}, {"op": "remove", "path": "/a"}, {"op": "test", "path": "", "value": None},
+PATCH_VALS = [None, True, 0, 1.5, "s", "", [], {}, [1], {"op": "add"}, {"op": "replace", "path": "", "value": "[1"}, {"op": "replace", "path": "", "value": "[1,2]"}, {"op": "add", "path": "", "value": "{"}, {"op": "add", "path": "/a", "value": 1}, {"op": "remove", "path": "/a"}, {"op": "test", "path": "", "value": None},
               {"op": "move", "from": "/a", "path": "/b"}, {"op": "copy", "from": "/a/0", "path": "/a/-"}, {"op": "replace", "path": "/a/0", "value": {}}, {"op": "add", "path": 5, "value": 1},
               {"op": 5}, {"op": None, "path": "/a"}, {"op": "add", "path": "a", "value": 1}, {"op": "add", "path": "/a\\", "value": 1}, {"op": "addne", "path": "/x", "value": 1},
               {"op": "addap", "path": "/a/9", "value": 1}, {"path": "/a"}, {"op": "move", "path": "/b"}, {"op": "remove", "path": "/#a"}, {"op": "remove", "path": "/a/#0"},
               {"op": "add", "path": "/a/" + "9" * 20, "value": 1}, {"op": "test", "path": "/a", "value": [1, 2]}, {"op": "move", "from": "", "path": "/a"}]
 
 
-TYPEVALS = [None, True, False, 0, 1, 1.5, "", "abc", "a.*", "[", [], [1, "a"], {}, {"a": 1}]
+TYPEVALS = [None, True, False, 0, 1, 1.5, "", "abc", "a.*", "[", "a{99999999999}", "(?u)(?a)x", "(?<=a+)b", "\\1", [], [1, "a"], {}, {"a": 1}]
 GRID_QUERIES = ["$[?match(@.a, @.b)]", "$[?search(@.a, @.b)]", "$[?match(@.a, 'a.*')]", "$[?search('abc', @.b)]", "$[?length(@.a) == 1]", "$[?length(@.a) < length(@.b)]",
                 "$[?count(@.a.*) > 0]", "$[?value(@.a) == @.b]", "$[?@.a in @.b]", "$[?@.a contains @.b]", "$[?@.a =~ /a.*/]", "$[?@.a < @.b]", "$[?@.a <= @.b]", "$[?@.a == @.b]",
                 "$[?@.a <> @.b]", "$[?!@.a || @.b]", "$[?@.a[0] == @.b[0]]", "$[?@.a['a'] == 1]", "$..[?@ == $[0].a]", "$[?# in @.a]", "$[?@.a in _.x]", "$[?_.x contains @.b]",
@@ -86,6 +86,16 @@ def gen(ctx):
         cases.append({"kind": "query", "text": s})
         if ctx.rng.random() < 0.15:
             cases.append({"kind": "query", "text": "$[?" + s + "]"})
+    # long runs after an opening delimiter that is never closed (where a careless pattern backtracks exponentially)
+    for k in (30, 64, 200):
+        for t in ['$["' + "a" * k, "$['" + "b" * k, '$[?@.a == "' + "x" * k + "]", "$[?@.a == '" + "x y" * k, "$[?@.a =~ /" + "a" * k, "$[" + "1" * k, "$." + "a" * k + "(", "$[?" + "(" * k,
+                  "$['" + "\\\\" * k, '$["' + "\\'" * k, "$.." + "a-" * k, "$[?length(" * 3 + "@" * k, "$[" + " " * k, "$[1" + " " * k + ":", "$[?@ == 1" + "e" * k, "$[?@ == " + "1" * k + "e" + "1" * k,
+                  "$[?@.a " + "contains" * k, "$[?" + "!" * k + "@]", "$" + "[0]" * k, "$" + ".a" * k + "["]:
+            cases.append({"kind": "query", "text": t})
+        for t in ["/" + "a" * k, "/a" + "~" * k, "/" + "~0" * k + "~", "/" + "1" * k, " " * k + "/a", "/" + "\\u00" * k]:
+            cases.append({"kind": "pointer", "text": t, "doc": ctx.rng.choice(DOCS), "ue": True})
+        for t in ["1" * k, "0+" + "1" * k, "0" + "#" * k, "0/" + "a" * k, "0-" + "0" * k + "1", "1" * k + "#"]:
+            cases.append({"kind": "rel", "text": t, "base": "/a/0"})
     base = qpool.all_texts()
     for _ in range(n):
         t = ctx.rng.choice(base)
@@ -144,8 +154,25 @@ def evaluate(ctx, cases):
     from jsonpath import JSONPatch, JSONPointer, RelativeJSONPointer
 
     signal.signal(signal.SIGALRM, _alarm)
+    # termination of compile / pointer parsing, probed in a worker process (a hang inside the regular-expression
+    # engine of the lexer never reaches a Python alarm)
+    from .. import hangscan, lexcorr
+    probe_items = [(c["kind"] if c["kind"] in ("pointer", "rel") else "query", c["text"]) for c in cases if c["kind"] in ("query", "evalgrid", "pointer", "rel")]
+    probe_cases = [c for c in cases if c["kind"] in ("query", "evalgrid", "pointer", "rel")]
+    hung = hangscan.scan(probe_items, limit=6.0)
+    hung_ids = set()
+    for i in hung:
+        c = probe_cases[i]
+        hung_ids.add(id(c))
+        what = {"query": "compiling any text must terminate", "evalgrid": "compiling any text must terminate", "pointer": "parsing any pointer text must terminate",
+                "rel": "parsing any relative pointer text must terminate"}[c["kind"]]
+        ctx.violation(what, c, "no result within 6 s (worker process killed)", "a result or a documented error")
+    if hung:
+        # later steps would hang on the same inputs in this process: report what was found
+        cases[:] = [c for c in cases if id(c) not in hung_ids and not (c["kind"] in ("query", "evalgrid") and any(probe_cases[i]["text"] == c["text"] for i in hung))]
+        if len(hung) >= 5:
+            return
     # character-level lexer model vs Lexer.tokenize on every query text of the fuzz streams
-    from .. import lexcorr
     lexcorr.run_texts(ctx, jsonpath.DEFAULT_ENV, [c["text"] for c in cases if c["kind"] in ("query", "evalgrid")])
     reqs, meta = [], []
     for c in cases:
